@@ -19,7 +19,7 @@ RULE = ('cases: every grid-world shape with extents 0..N per axis (DiscreteWorld
         'is the coordinate; get_cell(x,y,z) is that very row (row label = id, pos and the distinguishing cell-component values equal '
         'to the coordinate\'s); outside coordinates raise IndexError. Non-trivial shape: >=2 cells; distinct by (world class, extents).')
 ASSUMPTIONS = ['exhaustive only for extents <= N', 'cell ids are obtained with discrete_grid_pos_to_id(x, y, width, z, height) as documented']
-FLOORS = {'quick': {'id_by_keywords': 1593, 'id_with_defaults': 1579, 'id_numpy_coordinates': 3031, 'cell_y_omitted_z_keyword': 709, 'cell_numpy_coordinates': 1804, 'cell_defaults': 787, 'cell_by_keywords': 1743, 'shapes': 72, 'cells_checked': 720, 'outside_probes': 2000, 'cells_rechecked_after_update': 700, 'wrapping_shapes': 72, 'big_shapes': 2, 'big_cells': 12566, 'cells_rechecked_after_regeneration': 500, 'shapes_with_zero_axis': 30, 'line_worlds': 2,
+FLOORS = {'quick': {'sibling_world_rows_checked': 739, 'id_by_keywords': 1593, 'id_with_defaults': 1579, 'id_numpy_coordinates': 3031, 'cell_y_omitted_z_keyword': 709, 'cell_numpy_coordinates': 1804, 'cell_defaults': 787, 'cell_by_keywords': 1743, 'shapes': 72, 'cells_checked': 720, 'outside_probes': 2000, 'cells_rechecked_after_update': 700, 'wrapping_shapes': 72, 'big_shapes': 2, 'big_cells': 12566, 'cells_rechecked_after_regeneration': 500, 'shapes_with_zero_axis': 30, 'line_worlds': 2,
                     'grid_worlds': 8, 'reach:Environments.DiscreteWorld.get_cell': 2700, 'reach:Environments.discrete_grid_pos_to_id': 1400},
           'thorough': {'shapes': 500, 'cells_checked': 20000}}
 EXHAUSTIVE = {'quick': 'all grid shapes with extents 0..4 (125 DiscreteWorld, 4 LineWorld, 16 GridWorld) non-wrapping and wrapping, all in-range and just-outside coordinates',
@@ -136,8 +136,14 @@ def run_case(ctx, case):
     w, h, d = case['ext']
     rng_ax = [range(max(e, 1)) for e in (w, h, d)]
     ncells = len(rng_ax[0]) * len(rng_ax[1]) * len(rng_ax[2])
+    # a world of the same shape that belongs to another model exists already and carries cell components of its own
+    _, sibling = build(case)
+    sibling.add_cell_component('code', lambda pos, cells: code(pos) + 5000)
+    sibling.add_cell_component('only_sibling', lambda pos, cells: -code(pos))
     env.add_cell_component('code', lambda pos, cells: code(pos))
     env.add_cell_component('tag', lambda pos, cells: f'{pos[0]}:{pos[1]}:{pos[2]}')
+    check(sorted(env.cells.columns) == ['code', 'pos', 'tag'], f'the world\'s cell table has the columns {sorted(env.cells.columns)}: cell components of '
+          f'another world of the same shape show up in it', shape=case)
     check(len(env.cells) == ncells, f'world has {len(env.cells)} cells, expected {ncells}', shape=case)
     table = env.cells['pos']
     seen = {}
@@ -202,6 +208,16 @@ def run_case(ctx, case):
                 expect_raises(IndexError, f'get_cell{tuple(c)} outside shape {case}', spell_cell, env, rng_, ctx, *c)
                 ctx.ev()
                 ctx.count('outside_probes')
+    # ... and the other world still holds its own values, whatever we did to ours
+    check(sorted(sibling.cells.columns) == ['code', 'only_sibling', 'pos'], f'the other world of the same shape now has the columns '
+          f'{sorted(sibling.cells.columns)}', shape=case)
+    for i in list(seen)[:: max(1, ncells // 12)]:
+        x, y, z = seen[i]
+        row = sibling.get_cell(x, y, z)
+        ctx.count('sibling_world_rows_checked')
+        if row['code'] != code((x, y, z)) + 5000 or row['only_sibling'] != -code((x, y, z)) or tuple(row['pos']) != (x, y, z):
+            raise CaseViolation(f'cell ({x},{y},{z}) of ANOTHER world of the same shape now reads code={row["code"]} (its own value is '
+                                f'{code((x, y, z)) + 5000}): the two worlds share cell values', shape=case)
     ctx.count('shapes')
     if case.get('wrap'):
         ctx.count('wrapping_shapes')
